@@ -3,6 +3,8 @@
    Proofs/C06Proofs.v and followed by Print Assumptions. *)
 From Coq Require Import List String Bool.
 Require Import BertE.Model.BuildGate BertE.Spec.C06Spec BertE.Proofs.C06Proofs.
+Require Import BertE.Model.Git BertE.Model.Flow BertE.Model.Gate.
+Require Import BertE.Proofs.GitProofs BertE.Proofs.FlowProofs BertE.Proofs.GateProofs.
 Import ListNotations.
 
 (* For every number of integration branches and every vector of the five statuses: the outcome a
@@ -25,3 +27,36 @@ Theorem C06_error_branches :
   (forall ss, forallb is_known ss = false -> gate false false ss = KeyErr) /\ gate false false [] = EmptyErr.
 Proof. exact (conj gate_unknown_status gate_empty). Qed.
 Print Assumptions C06_error_branches.
+
+(* The "fresh tips" clause (system level, over the commit-DAG model of Model/Git.v, Flow.v, Gate.v).
+   update_integration_branches runs between the moment the statuses were reported and the moment
+   check_build_status reads them on the tips of the integration branches.
+   (1) When check_in_sync answers True and every integration branch includes the tip of its destination, the
+       update changes nothing, whatever the merge strategies: same commits, same tips - so the statuses read
+       afterwards are the ones reported on those very tips. *)
+Theorem C06_update_noop_when_current :
+  forall sg c src (pairs : list (name * name)),
+  wf_clone c -> check_in_sync c src (src :: map fst pairs) = true ->
+  (forall w d, In (w, d) pairs -> includes_tip c w d = true) ->
+  update_integration sg c src pairs = Some c.
+Proof. exact update_noop_when_current. Qed.
+Print Assumptions C06_update_noop_when_current.
+
+(* (2) Otherwise: [build] is the host's build table (None = nothing reported, answered as NOTSTARTED); a table
+       that exists before the job only mentions commits of the store before the job.  Every integration branch
+       then either kept its tip, or points to a commit created by this job - no entry in the table, the status
+       read is NOTSTARTED - or was fast-forwarded to a commit that already was the tip of the source branch, of a
+       destination or of an integration branch (so a report on the superseded tip is never what is read: the
+       status read is the one of the new tip). *)
+Theorem C06_new_tips_are_unbuilt :
+  forall (build : cid -> option bstatus) sg c src pairs c',
+  wf_clone c -> update_names_ok src pairs -> lookup (refs c) src <> None ->
+  table_within build (st c) ->
+  update_integration sg c src pairs = Some c' ->
+  forall w d x x', In (w, d) pairs -> lookup (refs c) w = Some x -> lookup (refs c') w = Some x' ->
+  x' = x \/
+  (List.length (st c) <= x' /\ build x' = None /\ status_at NOTSTARTED build x' = NOTSTARTED) \/
+  (x' < List.length (st c) /\ x' <> x /\ Anc (st c) x x' /\
+   exists m, In m (src :: map fst pairs ++ map snd pairs) /\ lookup (refs c) m = Some x').
+Proof. exact (new_tips_are_unbuilt NOTSTARTED). Qed.
+Print Assumptions C06_new_tips_are_unbuilt.
